@@ -581,7 +581,7 @@ def self_test(chk):
 
 def main(tier):
     chk = Check("C14", tier)
-    chk.prove(checker=(tier == "thorough"), exes=("driver_parser",))
+    chk.prove(modules=["PyPred.Props.C14", "PyPred.Props.C14G"], checker=(tier == "thorough"), exes=("driver_parser", "driver_grammar"))
     procs = int(os.environ.get("VERIF_PROCS", "0")) or min(16, os.cpu_count() or 1)
     items, dist = gen_inputs(tier, chk.seed)
     # de-duplicate texts (keep the first stream / intended tokens)
@@ -691,6 +691,9 @@ def main(tier):
         "Lark's Earley engine and its ambiguity resolution are observed, not modelled (DESIGN.md section 10): the theorems are about the language, the reference parser and the relation evaluated on Lark's output",
         "a 'parse error' is an exception of lark's UnexpectedInput / ParseError / LexError families; VisitError (an exception inside the transformer) is not",
     ]
+    from . import c14g  # the Lark grammar inside the model: translator tie + Lark's own trees as derivations (stage of this check)
+
+    c14g.stage(chk, tier, build=False)
     return chk.finish()
 
 
